@@ -212,7 +212,7 @@ def explain_sat_always(op_signal, intervals):
 def explain_sat_historically(op_signal, intervals):
     op_intervals = []
     if intervals:
-        begin, end = intervals[0]
+        begin, end = intervals[len(intervals)-1]
         op_intervals.append([0, end])
     return op_intervals
 
@@ -256,7 +256,7 @@ def explain_sat_once(op_signal, intervals):
 def explain_unsat_once(op_signal, intervals):
     op_intervals = []
     if intervals:
-        begin, end = intervals[0]
+        begin, end = intervals[len(intervals)-1]
         op_intervals.append([0, end])
     return op_intervals
 
